@@ -14,6 +14,7 @@ import (
 	"time"
 
 	"govc/internal/smt"
+	"govc/internal/replay"
 	"govc/internal/vc"
 )
 
@@ -37,6 +38,7 @@ func main() {
 	work := flag.String("work", "", "scratch directory (default: mktemp under $TMPDIR)")
 	replayDir := flag.String("replaydir", "/verif/replay", "where violation records go")
 	findingsFile := flag.String("findings", "/verif/known_findings.json", "known findings")
+	noReplay := flag.Bool("noreplay", false, "do not look for concrete failing inputs of failed obligations")
 	list := flag.Bool("list", false, "list functions under contract and their tags")
 	timeout := flag.Int("timeout", 0, "per-obligation timeout in seconds (default 10 quick / 60 thorough)")
 	flag.Parse()
@@ -208,6 +210,8 @@ func main() {
 	}
 	exit := 0
 	violations := 0
+	replayCache := map[string]replay.Outcome{}
+	var replays []map[string]any
 	for _, f := range failed {
 		matched := false
 		for _, k := range known {
@@ -222,6 +226,25 @@ func main() {
 		}
 		violations++
 		exit = 1
+		// look for a concrete failing input on the real code (never decides anything:
+		// the obligation has already failed; this only makes the report concrete)
+		if !*noReplay {
+			key := f.Fn + "|" + f.Kind + "|" + f.Label + "|" + f.Text
+			if strings.HasPrefix(f.Kind, "safety") {
+				key = f.Fn + "|safety"
+			}
+			oc, done := replayCache[key]
+			if !done {
+				oc = replay.Try(p, *repo, filepath.Join(*replayDir, *prop, "harness"), f)
+				replayCache[key] = oc
+			}
+			if oc.Found {
+				f.Replayed = true
+			}
+			data, _ := json.MarshalIndent(oc, "", " ")
+			f.ReplayOutput = string(data)
+			replays = append(replays, map[string]any{"obligation": f.Name, "found": oc.Found, "input": oc.Input, "observed": oc.Observed, "reason": oc.Reason, "candidates_run": oc.Tried, "seconds": round3(oc.Seconds)})
+		}
 		path := writeReplay(*replayDir, *prop, f, dir)
 		suffix := ""
 		if !f.Replayed {
@@ -295,6 +318,7 @@ func main() {
 				"return_points":            returns,
 				"return_points_proved_unreachable": deadReturns,
 				"undischarged":             und,
+				"replays_of_failed_obligations": replays,
 				"undecided":                undecided,
 				"engine_abstractions_hit":  abs,
 				"notes":                    notes,
